@@ -3,7 +3,9 @@ package props
 import (
 	"encoding/json"
 	"fmt"
+	"net/url"
 	"os"
+	"path"
 	"path/filepath"
 	"reflect"
 	"sort"
@@ -173,6 +175,8 @@ func c16Run(env *core.Env, idx int) core.CaseResult {
 	defer func() { spec.PathLoader = savedLoader }()
 	// an option structure without base location that the caller reuses from call to call
 	var curLoader *loaderLog
+	var sharedRef *spec.Ref
+	var sharedRefText, sharedRefDoc, sharedRefName string
 	sharedOpts := &spec.ExpandOptions{PathLoader: func(u string) (json.RawMessage, error) { return curLoader.load(u) }}
 	sharedBefore := snapOpts(sharedOpts)
 	// and one with the (canonical) location of the root, also reused from call to call: every version lives at the same URLs
@@ -185,7 +189,7 @@ func c16Run(env *core.Env, idx int) core.CaseResult {
 			sameURLDifferentContent++
 		}
 		lastVersion = v
-		kind := []string{"ExpandSpec", "ExpandSchemaWithBasePath", "ResolveRefWithBase", "ExpandResponse", "ExpandParameter", "meta-schema", "ExpandSchema(typed-root)", "ExpandSpec(shared-options,no-base)", "ExpandSchema(root-with-id)", "nil-options"}[rng.Intn(10)]
+		kind := []string{"ExpandSpec", "ExpandSchemaWithBasePath", "ResolveRefWithBase", "ExpandResponse", "ExpandParameter", "meta-schema", "ExpandSchema(typed-root)", "ExpandSpec(shared-options,no-base)", "ExpandSchema(root-with-id)", "nil-options", "reused-ref-value", "invalid-base-then-invalid-id"}[rng.Intn(12)]
 		if kind == "ExpandSpec(shared-options,no-base)" && !o.AbsOnly {
 			kind = "ExpandSpec" // without a base location only absolute and fragment-only references are meaningful
 		}
@@ -495,6 +499,85 @@ func c16Run(env *core.Env, idx int) core.CaseResult {
 			if b.Title != "local e "+tag {
 				report("result-depends-on-earlier-call", fmt.Sprintf("nil options: resolved to %q, the document of this call holds %q", b.Title, "local e "+tag))
 			}
+		case "reused-ref-value":
+			// one Ref value, created once per history, is handed to every call of this kind: a call must leave it as it found it, and what
+			// it expands to is what the documents of this call say
+			if sharedRef == nil {
+				var docs []string
+				for u := range w.Docs {
+					if u != w.Root {
+						docs = append(docs, u)
+					}
+				}
+				sort.Strings(docs)
+				for _, d := range docs {
+					dm, _ := in.Docs[d].(map[string]interface{})
+					defs, _ := dm["definitions"].(map[string]interface{})
+					if ks := keysOf(defs); len(ks) > 0 {
+						r := spec.MustCreateRef(gen.RefText(w.Root, d, []string{"definitions", ks[0]}, "abs"))
+						sharedRef, sharedRefText, sharedRefDoc, sharedRefName = &r, r.String(), d, ks[0]
+						break
+					}
+				}
+			}
+			if sharedRef == nil {
+				break
+			}
+			s := &spec.Schema{SchemaProps: spec.SchemaProps{Ref: *sharedRef}}
+			err, pan := guard(func() error { return spec.ExpandSchemaWithBasePath(s, nil, opts) })
+			if after := sharedRef.String(); after != sharedRefText {
+				report("caller-reference-modified", fmt.Sprintf("the Ref value handed in read %q before the call and %q after it", sharedRefText, after))
+				r := spec.MustCreateRef(sharedRefText)
+				sharedRef = &r
+			}
+			if pan != "" || err != nil {
+				report("call-failed", fmt.Sprintf("%v %s", err, pan))
+				break
+			}
+			st := oracle.State{Doc: sharedRefDoc, Ptr: oracle.TokensToPointer([]string{"definitions", sharedRefName})}
+			out, _ := oracle.Norm(s)
+			var plain interface{}
+			b, _ := json.Marshal(out)
+			_ = json.Unmarshal(b, &plain)
+			outW := withRoot(in, sharedRefDoc, setAt(in.Docs[sharedRefDoc], []string{"definitions", sharedRefName}, rebaseRefs(plain, w.Root, sharedRefDoc)))
+			if m := oracle.Bisimilar(in, st, outW, st, "schema"); m != nil {
+				report("result-depends-on-earlier-call", fmt.Sprintf("%s%s: %s (input %s, output %s)", st.Ptr, m.Path, m.Reason, m.A, m.B))
+			}
+		case "invalid-base-then-invalid-id":
+			// a call with a base location that is no URI at all, then a schema whose id is no URI either: the id is ignored, its relative
+			// $ref is read next to the root of this call - whatever the first call left behind
+			junk := new(spec.Schema)
+			_ = json.Unmarshal([]byte(`{"title":"self-contained","properties":{"a":{"type":"string"}}}`), junk)
+			_, _ = guard(func() error {
+				return spec.ExpandSchemaWithBasePath(junk, nil, &spec.ExpandOptions{RelativeBase: "%zz", PathLoader: ld.load})
+			})
+			// (the target is a small document of its own next to the root: a schema with an invalid id is registered under the base
+			// location itself, so references that lead back to the root document would read the holder instead - an oddity no property
+			// speaks about, kept out of this check)
+			tag := fmt.Sprintf("v%d-%d", v, step)
+			tu, _ := url.Parse(w.Root)
+			tu.Path, tu.RawPath = path.Dir(tu.Path)+"/c16-target.json", ""
+			target := tu.String()
+			var reqs []string
+			tl := func(u string) (json.RawMessage, error) {
+				reqs = append(reqs, u)
+				if u == target {
+					return json.RawMessage(`{"definitions":{"t":{"title":"target ` + tag + `","type":"object"}}}`), nil
+				}
+				return ld.load(u)
+			}
+			s := new(spec.Schema)
+			_ = json.Unmarshal([]byte(`{"id":"%zz","title":"holder with an id that is not a URI","properties":{"a":{"$ref":"c16-target.json#/definitions/t"}}}`), s)
+			err, pan := guard(func() error {
+				return spec.ExpandSchemaWithBasePath(s, nil, &spec.ExpandOptions{RelativeBase: w.Root, PathLoader: tl})
+			})
+			if pan != "" || err != nil {
+				report("result-depends-on-earlier-call", fmt.Sprintf("a relative $ref below an id that is not a URI: %v %s (requests: %v)", err, pan, reqs))
+				break
+			}
+			if got := s.Properties["a"].Title; got != "target "+tag || len(reqs) != 1 || reqs[0] != target {
+				report("result-depends-on-earlier-call", fmt.Sprintf("\"c16-target.json#/definitions/t\" below an invalid id resolved to %q with requests %v; this call's document at %s holds %q", got, reqs, target, "target "+tag))
+			}
 		case "meta-schema":
 			// expansions involving the built-in meta-schemas, and their resolution without any loader request
 			var rec []string
@@ -576,10 +659,37 @@ func init() {
 		NumCases: c16NumCases,
 		Run:      c16Run,
 		Floors: func(env *core.Env) []string {
-			return []string{"call.ExpandSpec", "call.ExpandSchemaWithBasePath", "call.ResolveRefWithBase", "call.ExpandResponse", "call.ExpandParameter", "call.meta-schema", "call.ExpandSchema(typed-root)", "call.ExpandSpec(shared-options,no-base)", "call.ExpandSchema(root-with-id)", "call.nil-options", "calls-with-reused-options",
+			return []string{"call.ExpandSpec", "call.ExpandSchemaWithBasePath", "call.ResolveRefWithBase", "call.ExpandResponse", "call.ExpandParameter", "call.meta-schema", "call.ExpandSchema(typed-root)", "call.ExpandSpec(shared-options,no-base)", "call.ExpandSchema(root-with-id)", "call.nil-options", "call.reused-ref-value", "call.invalid-base-then-invalid-id", "calls-with-reused-options",
 				"quiescent-cache-inspections", "consecutive-calls-on-same-urls-with-different-content"}
 		},
 		ChunkSize:   10,
 		Assumptions: []string{"each worker process runs many histories one after the other, so state leaking across histories is observed as well", "the fresh-process replay of sampled calls (design) is subsumed by judging every call against its own version with an independent oracle"},
 	})
+}
+
+// rebaseRefs rewrites the $refs of an expansion result (written relative to the location from) so that they read the same from the
+// document to: cut-points of cycles are the only $refs left, and the oracle reads them in the document the element came from.
+func rebaseRefs(v interface{}, from, to string) interface{} {
+	switch x := v.(type) {
+	case map[string]interface{}:
+		m := make(map[string]interface{}, len(x))
+		for k, c := range x {
+			if s, ok := c.(string); ok && k == "$ref" {
+				if t, err := oracle.RefTarget(from, s); err == nil {
+					toks, _ := oracle.PointerTokens(t.Ptr)
+					m[k] = gen.RefText(to, t.Doc, toks, "abs")
+					continue
+				}
+			}
+			m[k] = rebaseRefs(c, from, to)
+		}
+		return m
+	case []interface{}:
+		a := make([]interface{}, len(x))
+		for i, c := range x {
+			a[i] = rebaseRefs(c, from, to)
+		}
+		return a
+	}
+	return v
 }
